@@ -2648,7 +2648,10 @@ def fixup_dilation_gt2(op: Operation, arch, nng) -> Operation:
             new_kernel_w = (kernel_w - 1) * scale_dilation_w + 1
 
             new_kernel_shape = [new_kernel_h, new_kernel_w, kernel_ic, kernel_oc]
-            new_kernel_values = np.zeros(new_kernel_shape, dtype=op.weights.values.dtype)
+            # the positions between the original kernel values must not contribute: they hold the weights' zero point
+            zero_point = op.weights.quantization.zero_point
+            fill_value = zero_point if np.isscalar(zero_point) else 0
+            new_kernel_values = np.full(new_kernel_shape, fill_value, dtype=op.weights.values.dtype)
 
             # copy the original kernel values into the new sparse kernel
             for h in range(0, kernel_h):
